@@ -1091,6 +1091,20 @@ pub fn c14_scenarios(ns: &[u64], spins: &[(usize, usize)]) -> Vec<Scn> {
                 vec![opd(AddStream, R1, R2), op(TryRecv, R2)],
             ];
             out.push(s);
+            // the same without any later operation on the new stream (every such
+            // operation would wake the sender by accident). If the new stream was
+            // subscribed before the value was taken it holds that value and the
+            // sender is refused for good reason: a probe send tells the two apart
+            let mut s = Scn::new("c14-sink-vs-direct-recv-vs-add-stream-left-idle", cfg);
+            s.prefix = vec![opd(CloneH, R0, R1), opd(CloneH, S0, S1)];
+            s.prefix.extend(prep(St::Full, n, &[R0]));
+            s.threads = vec![
+                vec![opv(SinkSend, S0, 1)],
+                vec![(0..n).map(|_| op(TryRecv, R0)).collect::<Vec<_>>()].concat(),
+                vec![opd(AddStream, R1, R2)],
+            ];
+            s.hang_probe = Some(S1);
+            out.push(s);
             // receiver is dropped while the sink is parked (other stream remains)
             let mut s = Scn::new("c14-sink-parked-vs-stream-removed", cfg);
             s.prefix = vec![opd(AddStream, R0, R1)];
